@@ -7,11 +7,11 @@ if [ "$cmd" = verify ]; then
   wt=$1; name=$2; out=$wt/_out
   pkg=$(python3 -c "import json;print(json.load(open('$out/meta.json'))['demo_pkg_dir'])")
   cd $wt || exit 2
-  git stash -q || exit 2
+  git apply -R $out/patch.diff || exit 2   # (git stash is shared between worktrees: not used)
   cp $out/demo_test.go $pkg/zz_demo_test.go
   if go test -count=1 ./$pkg >/tmp/mut_clean.log 2>&1; then clean=pass; else clean=FAIL; fi
   rm -f $pkg/zz_demo_test.go
-  git stash pop -q || exit 2
+  git apply $out/patch.diff || exit 2
   if go build ./... >/tmp/mut_build.log 2>&1 && go test -count=1 ./... >/tmp/mut_suite.log 2>&1; then suite=pass; else suite=FAIL; fi
   cp $out/demo_test.go $pkg/zz_demo_test.go
   if go test -count=1 ./$pkg >/tmp/mut_demo.log 2>&1; then demo=PASS-unexpected; else demo=fails; fi
